@@ -116,8 +116,13 @@ def rule_whole(ctx, rep):
                 if pointer_like(F, l["self"]):
                     continue  # reported by R-DELEG
                 got = render(F, j, {})
+                whole_params = [render(F, a["t"], {}) for a in st["args"] if "t" in a and F.ty(a["t"])["k"] == "param"]
                 if expect is not None and got == expect:
                     rep.ok("R-WHOLE", ik, cfg=tag)
+                elif expect is None and got in whole_params:
+                    # a handle without a Deref target (ArcUnion<A, B>) holds a whole `A` or a whole `B`: comparing those is
+                    # comparing the value it holds (which of the two is C12's concern)
+                    rep.ok("R-WHOLE", ik, "whole payload of a variant", cfg=tag)
                 elif expect is None:
                     rep.bad("R-WHOLE", ik, "%s has no Deref target, yet its %s impl applies `%s::%s` to %s instead of to another handle" % (hn, tr0.split("::")[-1], l["trait"].split("::")[-1], l["method"], got), l["loc"], tag)
                 else:
@@ -300,6 +305,19 @@ def rule_deleg(ctx, rep):
                 rep.ok("R-EQ-NE", ik, "both %s the same-allocation shortcut" % ("use" if r_eq else "do without"), cfg=tag)
             else:
                 rep.bad("R-EQ-NE", ik, "`eq` %s the same-allocation shortcut but `ne` %s: for two handles to one allocation holding a value that is not equal to itself (NaN) `a == b` and `a != b` give the same answer" % ("takes" if r_eq else "does not take", "does" if r_ne else "does not"), F.loc(ms["ne"]), tag)
+        # ... and `ne` is the negation of `eq` case by case (R-NE-NEG): under the same branch conditions a constant answer of one
+        # is the opposite constant of the other, and where one asks the value with `eq` the other asks with `ne` (or negates)
+        for ip, ms in pe.items():
+            if len(ms) != 2:
+                continue
+            ik = "%s ne = !eq" % F.ts(ms["eq"]["impl"]["self_ty"])
+            why = _ne_negates_eq(F, ms["eq"], ms["ne"])
+            if why is None:
+                rep.ok("R-NE-NEG", ik, cfg=tag)
+            elif why == "":
+                rep.ok("R-NE-NEG", ik, "not summarisable case by case; constants compared", cfg=tag, nontrivial=False)
+            else:
+                rep.bad("R-NE-NEG", ik, why, F.loc(ms["ne"]), tag)
         # licence shape of Arc::eq / Arc::ne
         for m, const in (("eq", 1), ("ne", 0)):
             for b in F.method("Arc", m, "PartialEq"):
@@ -311,7 +329,63 @@ def rule_deleg(ctx, rep):
     rep.floor("R-DELEG", 35, "comparison/hash/format methods on handle and header-slice types (default configuration: 40+)")
     rep.floor("R-LICENCE", 2, "Arc::eq and Arc::ne")
     rep.floor("R-EQ-NE", 2, "handle impls that define both eq and ne")
+    rep.floor("R-NE-NEG", 2, "the same impls")
     rep.floor("R-DELEG-ALL", 20, "handle-level comparison/hash/format methods")
+
+
+def _ne_negates_eq(F, beq, bne):
+    """None if `ne` is `eq` negated case by case; "" if the bodies cannot be summarised (and their constant answers are at least
+    opposite); otherwise what differs."""
+    from .. import symx
+    from .c06 import nobb
+
+    def leaf_kind(v):
+        v = nobb(v)
+        neg = False
+        while v[0] == "un" and v[1] == "Not":
+            neg, v = not neg, v[2]
+        if v[0] == "const":
+            return ("const", (1 - v[1]) if neg else v[1])
+        if v[0] == "call" and v[2] in ("eq", "ne"):
+            return ("ask", (v[2] == "eq") != neg)  # True: answers "equal"
+        return ("other", symx.show(v)[:80])
+
+    def norm(cs):
+        out = {}
+        for conds, v in cs:
+            key = []
+            for d, rel, x in conds:
+                d = nobb(d)
+                flip = False
+                while d[0] == "un" and d[1] == "Not":
+                    flip, d = not flip, d[2]
+                if flip and rel == "eq" and x in (0, 1):
+                    x = 1 - x
+                elif flip and rel == "notin" and list(x) in ([0], [1]):
+                    x = [1 - x[0]]
+                key.append((symx.show(d), rel, tuple(x) if isinstance(x, (list, tuple)) else x))
+            out[frozenset(key)] = leaf_kind(v)
+        return out
+
+    ce, cn = symx.path_cases(F, beq), symx.path_cases(F, bne)
+    if ce is None or cn is None:
+        return ""
+    ne_, nn = norm(ce), norm(cn)
+    if set(ne_) != set(nn):
+        ec = {v[1] for v in ne_.values() if v[0] == "const"}
+        nc = {v[1] for v in nn.values() if v[0] == "const"}
+        if ec and nc and {1 - x for x in ec} != nc:
+            return "`eq` answers the constants %s, `ne` the constants %s: for some pair of values `a == b` and `a != b` agree" % (sorted(ec), sorted(nc))
+        return ""
+    for k, ve in ne_.items():
+        vn = nn[k]
+        if ve[0] == "const" and vn[0] == "const" and ve[1] == vn[1]:
+            return "under the same conditions (%s) `eq` and `ne` both answer the constant `%s`: `a == b` and `a != b` agree for such a pair" % (", ".join("%s %s %s" % (c[0][:50], c[1], c[2]) for c in sorted(k, key=str)) or "always", "true" if ve[1] else "false")
+        if ve[0] == "ask" and vn[0] == "ask" and ve[1] == vn[1]:
+            return "`ne` asks the value the same question as `eq` without negating the answer"
+        if {ve[0], vn[0]} == {"const", "ask"}:
+            return "in a case where `eq` %s, `ne` %s" % ("answers a constant" if ve[0] == "const" else "asks the value", "answers a constant" if vn[0] == "const" else "asks the value")
+    return None
 
 
 def _path_without_delegate(F, L, b, tr):
